@@ -272,6 +272,8 @@ impl BeneficiaryHistory {
         let mut rewards_newest_first = Vec::new();
 
         for writer in (0..txid).rev() {
+            #[cfg(grevm_verif)]
+            crate::verif::sched_point("hist.scan");
             let EntryState { incarnation, value } = self.entries[writer].snapshot();
             let effect = match value {
                 EntryValue::Estimate => return Err(writer),
